@@ -175,6 +175,19 @@ CHECKS["C06"] = dict(
     design="4 (C06), 5 (D7, D8 fixed)",
     note="time.Now() is replaced by the harness clock through the overlay rewrite; timeouts > 0 for after_complete_scan_all_future.")
 
+CHECKS["C11"] = dict(
+    engine="fr",
+    technique="Lean 4 proof (segmentation invariance feed_segments by induction over arbitrary segment lists; frame partition; absorbing close) + exact-segmentation correspondence through net.Pipe",
+    text="21 theorems on the model of the TCP reader loop (peek length, read exactly one frame, decode, close on first failure) parameterised by "
+         "the decoder and instantiated with the collector model: feed_segments / segmentation_invariant (ANY segmentation delivers what the "
+         "concatenation delivers), frames_partition (delivered frames are contiguous, non-overlapping slices, each as long as its header says; "
+         "stream = frames + unconsumed), stops_at_first_bad (closed, nothing later delivered), round_trip, connections_independent, "
+         "model_meets_spec. The real handleTCPClient runs on one end of a net.Pipe (each Write is exactly one segment, quiescence is exact, no "
+         "sleeps): every single and double cut of short streams, multi-cuts of long ones, an invalid message at each position, interleaved "
+         "connections; the declarative frames spec is evaluated on every implementation observation.",
+    design="4 (C11), Appendix A.1",
+    note="net.Pipe stands for the TCP byte stream (reliable, arbitrary segmentation); the kernel's TCP stack is not exercised by this check (C01 does).")
+
 NOT_YET = {}
 
 
